@@ -491,6 +491,15 @@ pub fn generate(prop: &str, tier: &str, seed: u64, out: &mut impl Write) {
             for n in [255usize, 256, 257, 511, 512, 513, 1000] {
                 for v in [0u8, 0xFF, 0x55] { let b = vec![v; n]; w!("crc {}", hex_of(&b)); w!("#@ C06 {}", hex_of(&b)); }
             }
+            // strings that drive the register to zero part-way: a message followed by its own checksum, then more bytes
+            for t in 0..=255u8 { let b = [0xFFu8, 0xFF, t]; w!("crc {}", hex_of(&b)); w!("#@ C06 {}", hex_of(&b)); }
+            for _ in 0..scale(tier, 300, 5000) {
+                let mut b = r.rbytes(0, 12);
+                let c = crc_wire(&b); b.extend(c);
+                let tail = r.rbytes(1, 6); b.extend(&tail);
+                if r.bool() { let c2 = crc_wire(&b); b.extend(c2); b.extend(r.rbytes(0, 3)); }
+                w!("crc {}", hex_of(&b)); w!("#@ C06 {}", hex_of(&b));
+            }
         }
         "C07" => {
             let emit = |b: &[u8], out: &mut dyn Write, r: &mut Rng| {
